@@ -2,7 +2,7 @@
 Correspondence: generated journals (several commodities, repeated payees / dates / amounts,
 virtual postings, posting states) are reported by ledger's REPL with `reg --format` (exact
 amounts and running totals through the verif_rational hook) under --sort KEYS, --head/--tail N,
---collapse, --subtotal, --by-payee, --dow, --depth N, alone and combined with --real /
+--collapse, --subtotal, --by-payee, --dow, --depth N, --by-payee --subtotal, --dow --subtotal, alone and combined with --real /
 --cleared / an account query / a payee query and with each other (postings may name their own
 payee with a `; Payee:` tag: post_t::payee() is the key of --by-payee, --sort payee and @NAME), and by the extracted Coq model
 (Model/Regroup.v: the handler chain of chain.cc); rows are compared one by one.
@@ -18,14 +18,14 @@ META = dict(
     id='C17',
     level='proof',
     technique='Coq proof (std::stable_sort by specification: unique stable sorted permutation; comparator is a strict weak order; head/tail window; group sums by fold invariants) + differential correspondence of the extracted handler-chain model against ledger',
-    level_text='Theorems in coq/Properties/Properties_C17.v: any two results meeting the specification of a stable sort are equal and the model\'s insertion sort meets it (so the model predicts std::stable_sort without trusting its algorithm); the model of sort_value_is_less_than is a strict weak order on dates, strings, amounts and compound keys with inverted components whenever no amount lacks a commodity or at most one commodity occurs (and is refuted by a cyclic witness otherwise); --sort yields a permutation with unchanged amounts; the model of truncate_xacts keeps exactly the first / last N transactions of the stream for every integer N (0, beyond the count, negative as coded); the models of subtotal_posts, by_payee_posts, day_of_week_posts and collapse_posts (--collapse, --depth) emit groups whose values are the exact per-commodity sums of their members and preserve the grand total in every commodity. The model is tied to the code by comparing, row for row (transaction identity, date, payee, account, exact amount, exact running total), ledger\'s register with the extracted model on thousands of generated journal/option pairs.',
+    level_text='Theorems in coq/Properties/Properties_C17.v: any two results meeting the specification of a stable sort are equal and the model\'s insertion sort meets it (so the model predicts std::stable_sort without trusting its algorithm); the model of sort_value_is_less_than is a strict weak order on dates, strings, amounts and compound keys with inverted components whenever no amount lacks a commodity or at most one commodity occurs (and is refuted by a cyclic witness otherwise); --sort yields a permutation with unchanged amounts; the model of truncate_xacts keeps exactly the first / last N transactions of the stream for every integer N (0, beyond the count, negative as coded); the models of subtotal_posts, by_payee_posts, day_of_week_posts and collapse_posts (--collapse, --depth) emit groups whose values are the exact per-commodity sums of their members and preserve the grand total in every commodity; subtotal_posts behind --by-payee / --dow does so while every row it is fed holds a plain amount, and is refuted by a witness once a row holds two commodities (it reads the null post.amount of such a row: F1709). The model is tied to the code by comparing, row for row (transaction identity, date, payee, account, exact amount, exact running total), ledger\'s register with the extracted model on thousands of generated journal/option pairs.',
     level_note='Trusted: Coq kernel; extraction + OCaml driver and the python harness for the correspondence; amount arithmetic is the C03 model (GMP as Q). std::stable_sort is modelled by its specification; the iteration order of collapse_posts\' totals map (keyed by account address) is unspecified, rows of one --depth group are compared as a set. Display hiding of zero rows is avoided by always passing --empty.',
     design_ref='DESIGN.md section 7 C17',
     assumptions=['commodities are unannotated symbols (no lot prices/dates), no posting-level dates, no automated or periodic transactions',
                  'payees contain no % (by_payee_posts passes the payee to strftime) and no | ; account and payee (@NAME) queries are literal substrings',
                  '10-30% of the postings of most journals name their own payee (`; Payee: NAME` on the posting line or the line after, occasionally on the transaction); the model is fed post_t::payee() per posting and the transaction payee separately; the oracle takes each posting\'s payee from the plain register\'s own %(payee)',
                  'the register is run with --empty so that every posting or group is a row',
-                 'subtotal/by-payee/dow are not fed compound (multi-commodity) postings produced by another regrouping handler',
+                 '--by-payee --subtotal and --dow --subtotal (subtotal_posts fed the rows of another subtotalling handler, multi-commodity rows included) are generated and modelled (resubtotal); a period option in front of them and collapse/sort/head/tail behind that pair are not',
                  'negative --head/--tail counts are modelled as coded but are outside the property\'s quantifier (oracle silent)'],
 )
 
@@ -224,7 +224,8 @@ class Opt:
         if self.state:
             a.append({1: '--cleared', 2: '--pending', 3: '--uncleared'}[self.state])
         if self.grp != 'none':
-            a.append({'sub': '--subtotal', 'payee': '--by-payee', 'dow': '--dow'}[self.grp])
+            a += {'sub': ['--subtotal'], 'payee': ['--by-payee'], 'dow': ['--dow'],
+                  'payee+sub': ['--by-payee', '--subtotal'], 'dow+sub': ['--dow', '--subtotal']}[self.grp]
         if self.coll is not None:
             a += ['--collapse'] if self.coll == 0 else ['--depth', str(self.coll)]
         if self.sort:
@@ -271,6 +272,8 @@ def parse_block(block):
     if 'Error' in block or block.startswith('CRASH('):
         if 'cannot accept virtual and' in block:
             return 'ERR:virtual-mismatch'
+        if 'uninitialized amount' in block:
+            return 'ERR:uninitialized-amount'
         if block.startswith('CRASH('):
             return 'ERR:crash'
         return 'ERR:other'
@@ -294,6 +297,8 @@ def entries(v):
     """'A:..' / 'B:..;..' -> list of (symbol or None, Fraction)"""
     if v.startswith('B:'):
         parts = v[2:].split(';') if v[2:] else []
+    elif re.fullmatch(r'I:-?\d+', v):
+        return [(None, F(int(v[2:])))]          # an integer (the amount of a posting whose post.amount is null: 0)
     else:
         parts = [v]
     out = []
@@ -329,7 +334,7 @@ def vsum(rows):
 
 # ------------------------------------------------------------------------------ correspondence
 def canon_payee(o, text):
-    if o.grp == 'sub':
+    if o.grp in ('sub', 'payee+sub', 'dow+sub'):
         m = re.fullmatch(r'- (\d\d)-(\w\w\w)-(\d\d)', text)
         if m:
             d = datetime.datetime.strptime(text[2:], '%y-%b-%d').date()
@@ -609,13 +614,27 @@ def cut_account(a, n):
 def oracle_regroup(o, P, R):
     """a regrouped register against the plain one (same filter)"""
     name = o.grp if o.grp != 'none' else ('collapse' if o.coll == 0 else 'depth')
+    # --by-payee --subtotal / --dow --subtotal: does a row of the first regrouping (a payee's or a
+    # weekday's sum on one account, by the members in the plain register) hold two or more commodities?
+    compound = ''
+    if o.grp.endswith('+sub') and not isinstance(P, str):
+        first = {}
+        for r in P:
+            k = (r.payee if o.grp == 'payee+sub' else datetime.date.fromordinal(r.days + EPOCH).weekday(), r.acct)
+            first.setdefault(k, set()).update(sym for sym, q in entries(r.amt))   # zero amounts count: they make a balance too
+        if any(len(v) >= 2 for v in first.values()):
+            compound = ':multi-commodity-row-of-first-regrouping'
     if isinstance(R, str):
         if isinstance(P, str):
             return []
         mixed = {r.acct for r in P if r.virt} & {r.acct for r in P if not r.virt}
         if R == 'ERR:virtual-mismatch' and mixed:
-            return [('%s:error:virtual-and-real-postings-to-one-account' % name,
+            # (raised by the first handler of a pair: the key names that one)
+            return [('%s:error:virtual-and-real-postings-to-one-account' % name.split('+')[0],
                      'reg %s reports an error instead of the sums' % o.text(), R, 'one row per group')]
+        if R == 'ERR:uninitialized-amount' and compound:
+            return [('%s:error%s' % (name, compound),
+                     'reg %s reports an error instead of the sums' % o.text(), R, 'one row per account')]
         return [('%s:error' % name, 'reg %s fails' % o.text(), R, 'one row per group')]
     if isinstance(P, str):
         return []
@@ -643,8 +662,9 @@ def oracle_regroup(o, P, R):
                 exp.append(sorted(((d, xp, c, vsum([r for r in g if cut_account(r.acct, o.coll) == c])) for c in accts),
                                   key=lambda t: t[2]))
     else:
-        if o.grp == 'sub':
-            # one row per account, labelled with the end of the date range
+        if o.grp in ('sub', 'payee+sub', 'dow+sub'):
+            # one row per account, labelled with the end of the date range (subtotalling the rows of
+            # --by-payee / --dow again merges them per account: the members are the same postings)
             end = datetime.date.fromordinal(max(r.days for r in P) + EPOCH).strftime('- %y-%b-%d') if P else None
             classes = [(end, P)] if P else []
         elif o.grp == 'payee':
@@ -678,12 +698,12 @@ def oracle_regroup(o, P, R):
             i += len(g)
     out = []
     if bad:
-        out.append(('%s:group' % name, 'reg %s: %s' % (o.text(), bad), got[:8], flat[:8]))
+        out.append(('%s:group%s' % (name, compound), 'reg %s: %s' % (o.text(), bad), got[:8], flat[:8]))
     if label:
         out.append(('payee:label:percent-sequence-or-overlong-payee',
                     'reg %s does not show the payee name as it is' % o.text(), label[0], label[1]))
     if vsum(R) != vsum(P) or (R and vec(R[-1].tot) != vsum(P)) or not totals_are_prefix_sums(R):
-        out.append(('%s:grand-total' % name, 'reg %s: the grand total differs from the plain register' % o.text(),
+        out.append(('%s:grand-total%s' % (name, compound), 'reg %s: the grand total differs from the plain register' % o.text(),
                     vsum(R), vsum(P)))
     return out
 
@@ -779,6 +799,9 @@ def cases_for(rng, xs, thorough):
             if rng.random() < 0.3:
                 out.append(f.but(head=rng.choice(ns), tail=rng.choice(ns), **g))
         out.append(f.but(grp=rng.choice(['payee', 'dow', 'sub']), coll=rng.choice([0, 0, 1, 2])))
+        # two regrouping options: subtotal_posts behind by_payee_posts / day_of_week_posts
+        out.append(f.but(grp='payee+sub'))
+        out.append(f.but(grp='dow+sub'))
     return out
 
 
@@ -788,7 +811,7 @@ def run(ctx, n_override=None, oracle_only=False):
     res.rule = ('generated journals (0-15 transactions of 1-6 postings, 1-4 commodities, repeated payees/dates/amounts, '
                 'virtual postings, posting states, 10-30% of the postings naming their own payee; an "odd" profile adds zero amounts, amounts without commodity and accounts '
                 'used both virtually and really) x option sets (--sort over 17 key lists, --head/--tail N for N in 0..count+2 '
-                'and negative, --collapse/--subtotal/--by-payee/--dow/--depth 1-3, alone, with --real/--cleared/--pending/'
+                'and negative, --collapse/--subtotal/--by-payee/--dow/--depth 1-3, --by-payee --subtotal, --dow --subtotal, alone, with --real/--cleared/--pending/'
                 'an account query/a payee query, and combined in chain order); a case is non-trivial when the option changes the rows of '
                 'the reference register, or N lies strictly inside 0..count; distinct by journal text + option text')
     nj = n_override or ctx.scale(150, 800)
@@ -809,7 +832,12 @@ def run(ctx, n_override=None, oracle_only=False):
         cmds = ["reg --format '%s' --empty %s" % (FMT, ' '.join(o.args())) for o in uniq]
         blocks = lib.run_repl(path, cmds)
         outs = {}
-        for o, b in zip(uniq, blocks):
+        for o, b, c in zip(uniq, blocks, cmds):
+            if o.grp == 'dow+sub':
+                # a process of its own: whether a weekday's row is POST_VIRTUAL depends on the account flags
+                # (ACCOUNT_EXT_HAS_NON_VIRTUALS) set so far, and a REPL command that ended in an error
+                # leaves them set for the next one
+                b = lib.run_repl(path, [c])[0]
             outs[o.text()] = parse_block(b)
         psx = posts_sx(xs)
         plain = outs.get(Opt().text())
